@@ -178,6 +178,9 @@ type aMonitor struct {
 	info  aInfo
 	wseq  int
 	opsSinceScan int
+	// passive: engine B's concurrent phase. Replies no longer arrive in decision order, so the ledger is
+	// not driven; only the per-reply C03 checks run and the replies are recorded on their requests.
+	passive bool
 }
 
 func aNewMonitor(e *aEnv) *aMonitor {
@@ -263,7 +266,7 @@ func (m *aMonitor) onRequest(r *aReq) {}
 
 // onReturned: the call that submitted r has returned. A lock request without a terminal reply is queued.
 func (m *aMonitor) onReturned(r *aReq) {
-	if r.Terminal >= 0 {
+	if r.Terminal >= 0 || m.passive {
 		return
 	}
 	k := m.key(r.Op.Db, r.Key)
@@ -317,7 +320,22 @@ func (m *aMonitor) onReply(r *aReq, rp *aReply) {
 		m.info.asyncReplies++
 	}
 	if rp.Result == rEXPRIED {
+		if m.passive {
+			r.Expried++
+			if r.Expried > 1 {
+				m.viol("C03", "request #%d drew a second EXPRIED notice", r.Idx)
+			}
+			return
+		}
 		m.onExpried(k, r, rp)
+		return
+	}
+	if m.passive {
+		if r.Terminal >= 0 {
+			m.viol("C03", "request #%d got a second terminal reply %s (first was %s)", r.Idx, aResultName(rp.Result), aResultName(r.Replies[r.Terminal].Result))
+			return
+		}
+		r.Terminal = len(r.Replies) - 1
 		return
 	}
 	if r.Terminal >= 0 {
@@ -653,7 +671,7 @@ func (m *aMonitor) afterClock() {
 }
 
 func (m *aMonitor) afterOp(op aOp) {
-	if m.stop {
+	if m.stop || m.passive {
 		return
 	}
 	e := m.e
